@@ -269,7 +269,7 @@ fn pipeline(reqs: Vec<Vec<u8>>, stall_ms: u64, server: &Arc<Server<Cat>>, addr: 
     out.emit(json!({"ev": "Tcp", "provider": provider, "reset": false, "client_saw_reset": reset || !wrote, "reqs": [], "nreqs": reqs.len(), "direct": expected, "segs": [], "got": got, "closed": closed}));
 }
 
-/// Request; 1.0 s; request in two halves 3.0 s apart; 3.0 s; request: every message arrives before its own 5 s deadline.
+/// Request; 0.7 s; request in two halves 2.6 s apart; 2.6 s; request: every message arrives well before its own 5 s deadline.
 fn slow_connection(server: &Arc<Server<Cat>>, addr: SocketAddr, provider: &str) -> Value {
     let mk = |id: u8| { let mut m = vec![0, id, 0, 0, 0, 1, 0, 0, 0, 0, 0, 0]; m.extend_from_slice(&w("www.example.test.")); m.extend_from_slice(&[0, 1, 0, 1]); m };
     let reqs: Vec<Vec<u8>> = (1..=3).map(mk).collect();
@@ -281,16 +281,17 @@ fn slow_connection(server: &Arc<Server<Cat>>, addr: SocketAddr, provider: &str) 
     let mut closed = false;
     let mut buf = vec![0u8; 4096];
     for (i, q) in reqs.iter().enumerate() {
-        // request 2 begins 1.0 s after response 1 and arrives in two halves 3.0 s apart (4.0 s of its own 5 s); request 3
-        // follows an idle 3.0 s later: within its own 5 s, but longer than what request 2 left of its allowance
-        if i == 1 { std::thread::sleep(Duration::from_millis(1000)); }
-        if i == 2 { std::thread::sleep(Duration::from_millis(3000)); }
+        // request 2 begins 0.7 s after response 1 and arrives in two halves 2.6 s apart (3.3 s of its own 5 s: 1.7 s of
+        // slack for a loaded machine); request 3 follows an idle 2.6 s later: well within its own 5 s, but longer than
+        // the 1.7 s request 2 left of its allowance
+        if i == 1 { std::thread::sleep(Duration::from_millis(700)); }
+        if i == 2 { std::thread::sleep(Duration::from_millis(2600)); }
         let mut framed = (q.len() as u16).to_be_bytes().to_vec();
         framed.extend_from_slice(q);
         let half = if i == 1 { framed.len() / 2 } else { framed.len() };
         if sock.write_all(&framed[..half]).is_err() { closed = true; break; }
         if half < framed.len() {
-            std::thread::sleep(Duration::from_millis(3000));
+            std::thread::sleep(Duration::from_millis(2600));
             if sock.write_all(&framed[half..]).is_err() { closed = true; break; }
         }
         let want = got.len() + expected[i].len() + 2;
